@@ -165,6 +165,9 @@ func (jr *jpegReader) nextMarker() bool {
 			jr.marker = markerType(jr.buf[1])
 			return true
 		}
+		// Marker outside of an image (before the first SOI or after the
+		// last EOI): skip it so that the scan always moves forward.
+		jr.err = jr.discard(2)
 	}
 	return false
 }
